@@ -156,7 +156,7 @@ static void scenario(const vh::Json& sc, vh::Out& out, vh::Rng& rng, const vh::A
     const std::string kind = sc["kind"].str();
     out.begin("\"kind\":\"" + kind + "\"");
     if (kind == "llc" || kind == "mld2") { special_kind(kind, sc["ops"], out, rng); out.end(); return; }
-    VARIANT = out.sid % 2;
+    VARIANT = out.sid % 2; ALT = (unsigned)(out.sid / 2);      // both depend on the scenario id only (a scenario replayed alone behaves as in its batch)
     Kind* K = make_kind(kind); if (!K) { out.discard(); return; }
     const vh::Json& ops = sc["ops"]; const bool lazy = sc["lazy"].truth();
     for (size_t i = 0; i < ops.size(); ++i) {
